@@ -129,6 +129,9 @@ type simRcpt struct {
 	BH     int // block hash id
 	Block  uint64
 	Logs   []*simLog
+	// Pooled: a reorg put the transaction back into the pool and the node answers eth_getTransactionReceipt with a pending-style
+	// receipt (status 1, blockHash null, blockNumber null, no logs), as OpenEthereum and some gateways do; BH and Block are 0
+	Pooled bool
 }
 
 func (l *simLog) payload() []byte {
@@ -182,6 +185,8 @@ type lookupRec struct {
 	BH     int    `json:"bh"`
 	Blk    uint64 `json:"blk"`
 	Head   uint64 `json:"hd"` // the node's head when the receipt was served
+	// NoBlock: the receipt was served with blockHash null and blockNumber null (go-ethereum decodes that as the zero hash / a nil number)
+	NoBlock bool `json:"nb,omitempty"`
 }
 
 type scanRec struct {
@@ -229,6 +234,7 @@ type evmSim struct {
 	calls         int
 	gs            *gsSim // nil: index 0 with one fixed key
 	subCount      int    // log subscriptions made so far (one per Run)
+	pooledServed  int    // receipts served without block hash / number
 
 	// extension X8: receipts / block times / faults for transactions and blocks whose content is given byte by byte (raw logs)
 	rawRcpts   map[ethcommon.Hash]*types.Receipt
@@ -290,6 +296,9 @@ func (s *evmSim) GetBlockByHash(ctx context.Context, h ethcommon.Hash, full bool
 		hold = s.bbhHold[hNum(h)]
 	}
 	s.mu.Unlock()
+	if h == (ethcommon.Hash{}) {
+		return nil, nil // no block has the zero hash: JSON null, the client turns it into ethereum.NotFound
+	}
 	if hold != nil {
 		// the node is slow to answer this block-time lookup: the script decides when (the watcher's other goroutines go on meanwhile)
 		select {
@@ -312,7 +321,7 @@ func (s *evmSim) GetBlockByHash(ctx context.Context, h ethcommon.Hash, full bool
 	return &types.Header{Number: big.NewInt(1), Time: blockTimeOf(h), Difficulty: big.NewInt(0)}, nil
 }
 
-func (s *evmSim) GetTransactionReceipt(ctx context.Context, h ethcommon.Hash) (*types.Receipt, error) {
+func (s *evmSim) GetTransactionReceipt(ctx context.Context, h ethcommon.Hash) (interface{}, error) {
 	s.mu.Lock()
 	defer s.mu.Unlock()
 	tx := hNum(h)
@@ -345,6 +354,28 @@ func (s *evmSim) GetTransactionReceipt(ctx context.Context, h ethcommon.Hash) (*
 	if r == nil {
 		s.lookups = append(s.lookups, rec)
 		return nil, nil // JSON null: the client turns it into ethereum.NotFound
+	}
+	if r.Pooled {
+		// the transaction is back in the pool: a receipt that names no block.  blockHash / blockNumber are optional in go-ethereum's
+		// Receipt decoding (required: cumulativeGasUsed, logsBloom, logs, transactionHash, gasUsed); null becomes the zero hash / nil
+		rec.Code, rec.Status, rec.NoBlock = 2, r.Status, true
+		s.lookups = append(s.lookups, rec)
+		s.pooledServed++
+		raw, err := json.Marshal(&types.Receipt{Status: r.Status, TxHash: h, Logs: []*types.Log{}})
+		if err != nil {
+			return nil, err
+		}
+		var m map[string]interface{}
+		if err := json.Unmarshal(raw, &m); err != nil {
+			return nil, err
+		}
+		m["blockHash"], m["blockNumber"] = nil, nil
+		if k := s.bumpOnRcpt[tx]; k > 0 {
+			delete(s.bumpOnRcpt, tx)
+			s.head += k
+			s.headHash = hID(kindHead, s.head)
+		}
+		return m, nil
 	}
 	rec.Code, rec.Status, rec.BH, rec.Blk = 2, r.Status, r.BH, r.Block
 	s.lookups = append(s.lookups, rec)
